@@ -1,7 +1,7 @@
 //! C19 - byte offsets map to the right lines and columns; line extraction never fails.
 
 use crate::exec::{Outcome, Prop, Tier, catch, hash64};
-use crate::r#gen::choices::Choices;
+use crate::genr::choices::Choices;
 use cfgrammar::{NewlineCache, Span};
 use lrlex::{DefaultLexerTypes, LRNonStreamingLexerDef, LexerDef};
 use lrpar::{LexError, LexParseError, Lexer, NonStreamingLexer};
